@@ -6,7 +6,7 @@
     journal of the real engine; its proof over an engine LTS is not part of this
     file (see DESIGN.md, partial). *)
 From Coq Require Import List ZArith Bool Arith.
-From FF Require Import Sx TaskTree TaskTreeFacts Engine EngineFacts.
+From FF Require Import Sx TaskTree TaskTreeFacts Engine EngineFacts EngineSettle EngineLive.
 Import ListNotations.
 
 Theorem C01_executable_ids_parents_done : forall t l v p,
@@ -69,3 +69,18 @@ Proof.
   destruct unvalidated_refuted as (s & Hr & _ & _ & _ & H3 & Hp). exists s. repeat split; assumption.
 Qed.
 Print Assumptions C01_engine_unvalidated_refuted.
+
+(** with commands issued and picked up at quiescent points the code as it is needs no hypothesis about
+    deliveries ([validate] arbitrary, also false): no stale or duplicate delivery can arise *)
+Theorem C01_engine_quiet_commands_dependency_order : forall tasks deps validate (rank : Z -> nat),
+  NoDup tasks ->
+  (forall t d, In d (deps t) -> (rank d < rank t)%nat) ->
+  (forall t d, In t tasks -> In d (deps t) -> In d tasks) ->
+  forall ls s t s', run tasks deps validate true true boot ls = Some s ->
+  step tasks deps validate true true s (MainStart t) = Some s' -> parents_done deps (store s) t = true.
+Proof.
+  intros tasks deps validate rank Hnd Hrank Hclosed ls s t s' Hr Hs.
+  apply (quiet_main_start_parents_done tasks deps validate s t s'); [|exact Hs].
+  exact (invq_reach tasks deps validate rank Hnd Hrank Hclosed ls boot s (invq_boot tasks deps) Hr).
+Qed.
+Print Assumptions C01_engine_quiet_commands_dependency_order.
